@@ -7,9 +7,10 @@
     the source; theorem `dispatch_runAlgo` (Proofs) says that on the regenerated table this IS `runAlgo`;
   * `genIupac` / `genAaCodes` read a tip character the way `parsimonyUPPASS` of asr does, from the goalign tables
     linked into the harness; theorems `iupacCheck` / `aaCodesCheck` say the model's own copies agree on all 256 bytes;
-  * `expectedSkeleton`: per numeric pass function the SHAPE of the selection predicates (`_ > _`: first maximum, strict;
+  * `expectedSkeleton`: per numeric pass function the selection predicates (`_ > _`: first maximum, strict;
     `_ == _`: every maximum kept; `_ > 1`: intersection; `_ >= 1`; `_ == 0`: a child lacking the kept state; the
-    Tip() tests; variable names are not part of a shape), the constants stored and the counters, in source order — what
+    Tip() tests; variable names play no part), the constants stored and the counters, in source order, compared through
+    `rowSig`: every comparison is EVALUATED on probes, so an equivalent spelling is the same row — what
     `argTo`, `maxTo`, `cp`, `inter`, `miss`, `stateNames`, `resolve` of Model/C12.lean and Model/C12R.lean transcribe.
 -/
 import Gotree.Gen.C12Sites
@@ -66,23 +67,69 @@ def interp (rows : List (String × String × String × String)) (pkg label : Str
 def neverRandom (rows : List (String × String × String × String)) : List (String × String × String) :=
   (rows.filter fun r => r.2.2.2 == "false").map fun r => (r.1, r.2.1, r.2.2.1)
 
-def expectedEntry : List (String × List String) := [
-  ("acr", ["_ = true", "if Tip() && !Tip()", "if _ != nil"]),
-  ("asr", ["if _ != nil", "if _ != nil", "if Tip() && !Tip()", "if _ != nil"])]
+/- ## rows of the pass functions, compared SEMANTICALLY: a comparison is evaluated on probes -/
 
-def expectedSkeleton : List (String × String × List String) := [
-  ("acr", "parsimonyUPPASS", ["_ = 0", "_ := 0", "if Tip()", "_ = 1", "if _ != _", "if _ != nil", "_ := 0", "if _ != _", "_++", "_ := 0", "_ := 0.0", "if _ > _", "if _ != _", "if _ == 0", "_++"]),
-  ("acr", "parsimonyDOWNPASS", ["if !Tip()", "if _ != _", "_ := 0", "if _ != nil", "_++", "if _ != _ && _ != _", "_++", "if _ != nil", "_ := 1", "if _ != _", "_++", "if _ != _"]),
-  ("acr", "computeParsimony", ["_ := 0.0", "if _ > _", "if _ == _", "_ = 1", "_ = 0"]),
-  ("acr", "parsimonyDELTRAN", ["if !Tip()", "if _ != nil", "_ := true", "if _ > 1", "_ = false", "if _ > 1", "_ = 1", "_ = 0", "if _ != _"]),
-  ("acr", "parsimonyACCTRAN", ["if !Tip()", "if _ != _", "_ := true", "if _ > 1", "_ = false", "if _ > 1", "_ = 1", "_ = 0", "if _ != _"]),
-  ("acr", "randomlyResolveNodeStates", ["_ := 0", "if _ >= 1", "_++", "if _ > 1", "_ := 0", "if _ >= 1", "if _ == _", "_ = 1", "_ = 0", "_++", "_ = 0"]),
-  ("asr", "parsimonyUPPASS", ["if Tip()", "if _ == align.NUCLEOTIDS", "if _ == align.ALL_AMINO", "_ = 1", "if _ != _", "if _ != nil", "_ := 0", "if _ != _", "_++", "_ := 0", "_ := 0.0", "if _ > _", "if _ != _", "if _ == 0", "_++"]),
-  ("asr", "parsimonyDOWNPASS", ["if !Tip()", "if _ != _", "_ := 0", "if _ != nil", "_++", "if _ != _ && _ != _", "_++", "if _ != nil", "_ := 1", "if _ != _", "_++", "if _ != _"]),
-  ("asr", "computeParsimony", ["_ := 0.0", "if _ > _", "if _ == _", "_ = 1", "_ = 0"]),
-  ("asr", "parsimonyDELTRAN", ["if !Tip()", "if _ != nil", "_ := true", "if _ > 1", "_ = false", "if _ > 1", "_ = 1", "_ = 0", "if _ != _"]),
-  ("asr", "parsimonyACCTRAN", ["if !Tip()", "if _ != _ && !Tip()", "_ := true", "if _ > 1", "_ = false", "if _ > 1", "_ = 1", "_ = 0", "if _ != _"]),
-  ("asr", "randomlyResolveNodeStates", ["_ := 0", "if _ >= 1", "_++", "if _ > 1", "_ := 0", "if _ >= 1", "if _ == _", "_ = 1", "_ = 0", "_++", "_ = 0"])]
+abbrev Atom := String × String × String
+abbrev Row := String × List Atom
+
+/-- numeric literals of the source (`0`, `0.0`, `1` …); counts are small naturals -/
+def litVal : String → Option Nat
+  | "0" | "0.0" => some 0 | "1" | "1.0" => some 1 | "2" | "2.0" => some 2 | "3" | "3.0" => some 3
+  | "4" | "4.0" => some 4 | _ => none
+
+def cmpOp : String → Option (Nat → Nat → Bool)
+  | ">" => some fun a b => decide (a > b) | ">=" => some fun a b => decide (a ≥ b)
+  | "<" => some fun a b => decide (a < b) | "<=" => some fun a b => decide (a ≤ b)
+  | "==" => some fun a b => a == b | "!=" => some fun a b => a != b
+  | _ => none
+
+def probes : List Nat := [0, 1, 2, 3, 4, 5]
+
+/-- what a comparison / stored constant MEANS: a comparison between a variable and a numeric literal is its truth
+    vector on the probes 0..5 (`c > 1` = `c >= 2` = `1 < c`); between two variables its truth table on the probe
+    pairs, the smaller-side-first spellings (`<`, `<=`) turned round first (`max < c` = `c > max`); a stored numeric
+    constant is its value (`0.0` = `0`); anything else (nil, true, a package constant) is kept as written -/
+def atomSig (a : Atom) : String × List Bool :=
+  let (l, op, r) := a
+  match cmpOp op with
+  | none => (match litVal r with
+      | some n => (op ++ " num", probes.map (· == n))
+      | none => (l ++ " " ++ op ++ " " ++ r, []))
+  | some f =>
+    match l == "_", r == "_", litVal l, litVal r with
+    | true, true, _, _ =>
+      let g : Nat → Nat → Bool := if op == "<" || op == "<=" then fun a b => f b a else f
+      ("var-var", probes.flatMap fun x => probes.map fun y => g x y)
+    | true, false, _, some n => ("var-lit", probes.map fun x => f x n)
+    | false, true, some n, _ => ("var-lit", probes.map fun x => f n x)
+    | _, _, _, _ => (l ++ " " ++ op ++ " " ++ r, [])
+
+/-- a row: its text, then the meaning of each of its comparisons -/
+def rowSig (r : Row) : List (String × List Bool) := (r.1, []) :: r.2.map atomSig
+
+/-- flat signatures (package, function, rows in order) -/
+def entrySig (l : List (String × List Row)) : List (String × List Bool) :=
+  l.flatMap fun e => (e.1, []) :: e.2.flatMap rowSig
+def skelSig (l : List (String × String × List Row)) : List (String × List Bool) :=
+  l.flatMap fun e => (e.1, []) :: (e.2.1, []) :: e.2.2.flatMap rowSig
+
+def expectedEntry : List (String × List Row) := [
+    ("acr", [("set", [("_", "=", "true")]), ("if Tip() && !Tip()", []), ("if #", [("_", "!=", "nil")])]),
+  ("asr", [("if #", [("_", "!=", "nil")]), ("if #", [("_", "!=", "nil")]), ("if Tip() && !Tip()", []), ("if #", [("_", "!=", "nil")])])]
+
+def expectedSkeleton : List (String × String × List Row) := [
+    ("acr", "parsimonyUPPASS", [("set", [("_", "=", "0")]), ("set", [("_", ":=", "0")]), ("if Tip()", []), ("set", [("_", "=", "1")]), ("if #", [("_", "!=", "_")]), ("if #", [("_", "!=", "nil")]), ("set", [("_", ":=", "0")]), ("if #", [("_", "!=", "_")]), ("_++", []), ("set", [("_", ":=", "0")]), ("set", [("_", ":=", "0.0")]), ("if #", [("_", ">", "_")]), ("if #", [("_", "!=", "_")]), ("if #", [("_", "==", "0")]), ("_++", [])]),
+  ("acr", "parsimonyDOWNPASS", [("if !Tip()", []), ("if #", [("_", "!=", "_")]), ("set", [("_", ":=", "0")]), ("if #", [("_", "!=", "nil")]), ("_++", []), ("if # && #", [("_", "!=", "_"), ("_", "!=", "_")]), ("_++", []), ("if #", [("_", "!=", "nil")]), ("set", [("_", ":=", "1")]), ("if #", [("_", "!=", "_")]), ("_++", []), ("if #", [("_", "!=", "_")])]),
+  ("acr", "computeParsimony", [("set", [("_", ":=", "0.0")]), ("if #", [("_", ">", "_")]), ("if #", [("_", "==", "_")]), ("set", [("_", "=", "1")]), ("set", [("_", "=", "0")])]),
+  ("acr", "parsimonyDELTRAN", [("if !Tip()", []), ("if #", [("_", "!=", "nil")]), ("set", [("_", ":=", "true")]), ("if #", [("_", ">", "1")]), ("set", [("_", "=", "false")]), ("if #", [("_", ">", "1")]), ("set", [("_", "=", "1")]), ("set", [("_", "=", "0")]), ("if #", [("_", "!=", "_")])]),
+  ("acr", "parsimonyACCTRAN", [("if !Tip()", []), ("if #", [("_", "!=", "_")]), ("set", [("_", ":=", "true")]), ("if #", [("_", ">", "1")]), ("set", [("_", "=", "false")]), ("if #", [("_", ">", "1")]), ("set", [("_", "=", "1")]), ("set", [("_", "=", "0")]), ("if #", [("_", "!=", "_")])]),
+  ("acr", "randomlyResolveNodeStates", [("set", [("_", ":=", "0")]), ("if #", [("_", ">=", "1")]), ("_++", []), ("if #", [("_", ">", "1")]), ("set", [("_", ":=", "0")]), ("if #", [("_", ">=", "1")]), ("if #", [("_", "==", "_")]), ("set", [("_", "=", "1")]), ("set", [("_", "=", "0")]), ("_++", []), ("set", [("_", "=", "0")])]),
+  ("asr", "parsimonyUPPASS", [("if Tip()", []), ("if #", [("_", "==", "align.NUCLEOTIDS")]), ("if #", [("_", "==", "align.ALL_AMINO")]), ("set", [("_", "=", "1")]), ("if #", [("_", "!=", "_")]), ("if #", [("_", "!=", "nil")]), ("set", [("_", ":=", "0")]), ("if #", [("_", "!=", "_")]), ("_++", []), ("set", [("_", ":=", "0")]), ("set", [("_", ":=", "0.0")]), ("if #", [("_", ">", "_")]), ("if #", [("_", "!=", "_")]), ("if #", [("_", "==", "0")]), ("_++", [])]),
+  ("asr", "parsimonyDOWNPASS", [("if !Tip()", []), ("if #", [("_", "!=", "_")]), ("set", [("_", ":=", "0")]), ("if #", [("_", "!=", "nil")]), ("_++", []), ("if # && #", [("_", "!=", "_"), ("_", "!=", "_")]), ("_++", []), ("if #", [("_", "!=", "nil")]), ("set", [("_", ":=", "1")]), ("if #", [("_", "!=", "_")]), ("_++", []), ("if #", [("_", "!=", "_")])]),
+  ("asr", "computeParsimony", [("set", [("_", ":=", "0.0")]), ("if #", [("_", ">", "_")]), ("if #", [("_", "==", "_")]), ("set", [("_", "=", "1")]), ("set", [("_", "=", "0")])]),
+  ("asr", "parsimonyDELTRAN", [("if !Tip()", []), ("if #", [("_", "!=", "nil")]), ("set", [("_", ":=", "true")]), ("if #", [("_", ">", "1")]), ("set", [("_", "=", "false")]), ("if #", [("_", ">", "1")]), ("set", [("_", "=", "1")]), ("set", [("_", "=", "0")]), ("if #", [("_", "!=", "_")])]),
+  ("asr", "parsimonyACCTRAN", [("if !Tip()", []), ("if # && !Tip()", [("_", "!=", "_")]), ("set", [("_", ":=", "true")]), ("if #", [("_", ">", "1")]), ("set", [("_", "=", "false")]), ("if #", [("_", ">", "1")]), ("set", [("_", "=", "1")]), ("set", [("_", "=", "0")]), ("if #", [("_", "!=", "_")])]),
+  ("asr", "randomlyResolveNodeStates", [("set", [("_", ":=", "0")]), ("if #", [("_", ">=", "1")]), ("_++", []), ("if #", [("_", ">", "1")]), ("set", [("_", ":=", "0")]), ("if #", [("_", ">=", "1")]), ("if #", [("_", "==", "_")]), ("set", [("_", "=", "1")]), ("set", [("_", "=", "0")]), ("_++", []), ("set", [("_", "=", "0")])])]
 
 /- ## command line -/
 
